@@ -308,7 +308,7 @@ def _run_assignlabels(desc):
     grain list; oracle = arg-min over per-grain errors with g-vectors from the Python reference formulas"""
     _, gi, tier = desc
     sh = Shard()
-    for flavour in ("displaced", "origin-mixed"):
+    for flavour in ("displaced", "origin-mixed", "frame-pairs"):
         _assignlabels_flavour(sh, gi, tier, flavour)
     return sh
 
@@ -328,6 +328,16 @@ def _assignlabels_flavour(sh, gi, tier, flavour):
     comp = (np.dot(u0, O.rotation_from_axis_angle((1, 2, 3), 0.2).T), t0 + np.array([200.0, -150.0, 80.0]))
     grains_all = truth + [comp]
     peaks = c09.simulate(tr, pars, truth)
+    nthreads = (1,)
+    if flavour == "frame-pairs":
+        # peaks as they come from 2-D peak tables: several spots share a frame, so consecutive rows carry exactly the same omega. Every
+        # spot is listed twice (the second one 0.4 pixel away); the thread count is varied here (blocks of the compiled loops start
+        # inside such runs)
+        peaks = np.repeat(peaks, 2, axis=0)
+        peaks[1::2, 0] += 0.37
+        peaks[1::2, 1] -= 0.29
+        nthreads = (1, 2, 3, 4, 7, 16)
+    from ImageD11 import cImageD11 as cI_
     wd = os.path.join(c09.WORK, "c07_al_%d" % os.getpid())
     shutil.rmtree(wd, ignore_errors=True)
     os.makedirs(wd)
@@ -348,8 +358,12 @@ def _assignlabels_flavour(sh, gi, tier, flavour):
             d = h - np.round(h)
             errs.append((d * d).sum(axis=0))
         errs = np.array(errs)
-        for tol in ((0.02, 0.05) if flavour == "displaced" else (0.03,)):
-            for order in itertools.permutations(range(4)):
+        ref_by_order = {}
+        for tol, order, nt in [(tol, order, nt) for tol in ((0.02, 0.05) if flavour == "displaced" else (0.03,))
+                               for order in (itertools.permutations(range(4)) if flavour != "frame-pairs" else [(0, 1, 2, 3), (3, 1, 0, 2)])
+                               for nt in nthreads]:
+            if True:
+                cI_.cimaged11_omp_set_num_threads(nt)
                 with contextlib.redirect_stdout(io.StringIO()):
                     o = refinegrains.refinegrains(tolerance=tol, OmFloat=False)
                     o.parameterobj = P.parameters(**pars)
@@ -382,7 +396,15 @@ def _assignlabels_flavour(sh, gi, tier, flavour):
                 border = (np.abs(e - tol2) < 1e-7).any(axis=0)
                 emask = np.where(elig, e, np.inf)
                 best = emask.min(axis=0)
-                case = {"kind": "assignlabels", "geometry": (gi * 5) % 128, "order": list(order), "tol": tol, "seed": seed_of(), "positions": flavour}
+                case = {"kind": "assignlabels", "geometry": (gi * 5) % 128, "order": list(order), "tol": tol, "seed": seed_of(), "positions": flavour,
+                        "nthreads": nt}
+                cI_.cimaged11_omp_set_num_threads(1)
+                if nt == nthreads[0]:
+                    ref_by_order[order] = (labels.copy(), drl.copy())
+                elif not (np.array_equal(ref_by_order[order][0], labels) and np.array_equal(ref_by_order[order][1], drl)):
+                    sh.violation("assignlabels:thread-count-dependent", case,
+                                 {"n_labels_differ": int((ref_by_order[order][0] != labels).sum()), "npeaks": len(labels)})
+                    continue
                 none = ~elig.any(axis=0)
                 ok = True
                 bad = none & ~border & (labels != -1)
